@@ -547,6 +547,22 @@ def rule_hard_decode(ctx, R="C04/hard-decode"):
                     ctx.violated(R, ("propagated", f.split("::")[-1], nm.split("::")[-1]), b.where(bi),
                                  "on the hard path of dump(), %s decodes target-chosen text (%s) and propagates the failure when %s: one thread or file with such a name makes the whole dump fail"
                                  % (f, ", ".join(strs)[:80] or "target bytes", why))
+    # iterator adaptors that END the scan at the first undecodable item (map_while / take_while / scan over io::Lines, or with a closure
+    # that turns a decode Result into None): the lines behind it are never seen, which is a failure of the whole function
+    for f in sorted(hard):
+        for b in prog.by_short.get(f, ()):
+            for bi, t in b.calls(lambda c: (c.short or c.target or "").split("::")[-1] in ("map_while", "take_while", "scan")):
+                cv = CalleeView(t["callee"])
+                inst = cv.inst or ""
+                if "std::io::Lines" in inst or "std::io::Split" in inst or "Utf8" in inst:
+                    o_ = Origin(b)
+                    strs = [s_[1] for s_ in walk(o_.call_expr(bi)) if s_[0] == "str"]
+                    if strs and not any(any(x in s_ for x in TARGET_TEXT_FILES) and "/proc/" in s_ for s_ in strs):
+                        continue
+                    n += 1
+                    ctx.violated(R, ("stops-at-first", f.split("::")[-1], cv.short.split("::")[-1] if cv.short else "?"), b.where(bi),
+                                 "on the hard path of dump(), %s scans target-chosen text (%s) with %s(): the scan ends at the first line that is not valid UTF-8 and the lines behind it are never examined"
+                                 % (f, ", ".join(strs)[:80] or "a target file", (cv.short or "?").split("::")[-1]))
     ctx.analysed["hard_path_functions"] = len(hard)
     ctx.floor(R, "functions on the hard path of dump()", len(hard), 100)
 
